@@ -659,14 +659,15 @@ def body_flags_real(obs):
     if not starts[0][2]:
         first = starts[0]
         code0 = int(first[0][:3]) if isinstance(first[0], str) and first[0][:3].isdigit() else 0
-        body0 = text if len(starts) == 1 else text      # (mid-stream: page chunks, then the bare chunk)
+        # mid-stream failure: the last chunk is the trapper's bare body, what came before belongs to the first answer
+        body0 = text if len(starts) == 1 else b''.join(c for c in obs['chunks'][:-1] if isinstance(c, bytes))
         if _ctype(first[1]) == 'text/plain' and code0 == 500:
             fl.add('bare')
         elif pc.CB_PAGE.encode() in body0:
             fl.add('cb')
         elif pc.CUSTOM_ER in body0:
             fl.add('custom')
-        elif code0 >= 400 and pc.PAGE_CHUNK not in body0 and _ctype(first[1]) == 'text/html':
+        elif code0 >= 400 and body0 and pc.PAGE_CHUNK not in body0 and _ctype(first[1]) == 'text/html':
             fl.add('ep')
             if (pc.MARK + '-errpage').encode() in body0:
                 fl.add('msg')
